@@ -62,7 +62,6 @@ for _p in []:   # C06, C15, C22: tx builder block below; C27: rules builder bloc
 
 PROPS['C08'] = {'level': 'proof', 'modules': ['MinterProofs.Props.C08'], 'theorems': ['Minter.C08_commit_perm_invariant', 'Minter.C08_accumulate_perm_invariant', 'Minter.C08_rank_perm_invariant', 'Minter.C08_range_sites_safe', 'Minter.C08_commit_call_order'], 'modes': [{'mode': 'determinism', 'args': ['-profile', 'mixed', '-seed', '{seed}', '-n', '4', '-tier', '{tier}', '-keep', '{keep}']}]}
 PROPS['C09']['modes'] = [{'mode': 'restart', 'args': ['-profile', 'mixed', '-seed', '{seed}', '-n', '6', '-tier', '{tier}', '-keep', '{keep}']}]
-PROPS['C11'] = {'level': 'proof', 'theorems': [], 'modes': [{'mode': 'export', 'args': ['-profile', 'mixed', '-seed', '{seed}', '-n', '16', '-tier', '{tier}', '-keep', '{keep}']}]}
 
 
 # ---------------------------------------------------------------------------------------------------------------
@@ -401,6 +400,29 @@ PROPS['C07'] = {
     'assumptions': ['only the panic sites the Lean models represent are covered by theorems; nil dereferences / index errors in glue code, resource exhaustion and third-party library panics are only searched for',
                     'payout_remainder_nonneg needs sum(bip) <= the validator\'s recorded stake (see C19); C24_run_total needs the events-store bound (see C24)'],
     'claim_draft': "Partial. Lean theorems, one per panic site the models represent, each for all inputs of its domain: the swap check after a pool quote can never fail, so the panic(err) sites inside calculateBuyForSellWithOrders / calculateSellForBuyWithOrders are dead for pools without orders, also through the public quotes with the 0.1% burn (C07_bfs_no_panic, C07_sfb_no_panic, C07_quote_no_panic; positive reserves, non-negative amount); the big.Float detour of a limit-order partial fill is exact, so both 'negative amount' panics and all clamp branches are dead (Lob.ratInt_eq_ediv, Lob.partialSellAmount_eq, Lob.partialBuyAmounts_eq); the deliver-side panic site of RemoveLiquidity is unreachable after its validation (remove_liquidity_exec_ok); the 'Negative remainder' panic of the reward payout cannot fire while the stakes' bip values sum to at most the validator's recorded stake (payout_remainder_nonneg); RLP decoding is a total function whose fuel never causes a rejection (Rlp.decode_fuel_irrelevant); the events store never panics on bounded well-formed runs (Ev.C24_run_total). Everything else is SEARCH, not proof: every ABCI call of every campaign (malformed bytes, mixed, staking, orders, begin: evidence / absences / maturing funds) runs under recover(); any panic of InitChain, BeginBlock, CheckTx, DeliverTx, EndBlock or Commit is reported with the trace (PANIC ...). The panics found so far (F1, F2, F8, F9, F12, F13, F28, F29 ...) are repaired in /repo and recorded in known_findings.json.",
+}
+
+
+# ---------------------------------------------------------------------------------------------------------------
+# export builder: C11 (exported state round-trips through genesis); mode `export2` (the older, cheap mode `export` is kept)
+PROPS['C11'] = {
+    'level': 'proof', 'registered': False,
+    'modules': ['MinterProofs.Props.C11'],
+    'theorems': ['Minter.Genesis.verifyState_ok_iff', 'Minter.Genesis.verifyState_error',
+                 'Minter.Genesis.export_verifies_volumes', 'Minter.Genesis.export_verifies_volumes_of_monitor',
+                 'Minter.Genesis.verified_volumes', 'Minter.Genesis.export_verifies', 'Minter.Genesis.export_verifies_core',
+                 'Minter.Genesis.wellFormed_inv', 'Minter.Genesis.wellFormed_verifies', 'Minter.Genesis.wellFormed_importFixed',
+                 'Minter.Genesis.reach_export_inv', 'Minter.Genesis.reach_verifies_volumes',
+                 'Minter.Genesis.import_id', 'Minter.Genesis.import_export_id', 'Minter.Genesis.import_nextOrder',
+                 'Minter.Genesis.import_ncoins', 'Minter.Genesis.pending_updates_not_roundtrip',
+                 'Minter.Genesis.exportState_idem', 'Minter.Genesis.C11_partial', 'Minter.Genesis.C11_partial_monitor'],
+    'modes': [{'mode': 'export2', 'args': ['-profile', 'rotate', '-seed', '{seed}', '-n', '{n:14:80}', '-tier', '{tier}', '-driver', '{driver}', '-keep', '{keep}']},
+              {'mode': 'export', 'args': ['-profile', 'mixed', '-seed', '{seed}', '-n', '16', '-tier', '{tier}', '-keep', '{keep}']}],
+    'assumptions': ['behavioural equivalence of the chain started from the export is bounded evidence only (twin continuation in modes export2 / export)',
+                    'Settled (the stake recalculation of Import/InitChain finds nothing to recompute) is a hypothesis; where it fails is known finding F15',
+                    'ExportInv / ImportFixed outside Conserved, distinct non-zero coin ids and the coin counter are hypotheses, evaluated on every real export by Q wellformed / Q verify',
+                    'the token parser Genesis.ofToken / genesisToken and the Go-side classification of Verify() error texts are trusted'],
+    'claim_draft': "Lean theorems (MinterProofs/Props/C11.lean, core Lean, for all states): verifyState - the list of checks of AppState.Verify() in the order of the Go code - accepts exactly when every check holds (verifyState_ok_iff, verifyState_error); a state with the C01 invariant (volume = holdings for every custom coin), distinct non-zero coin ids and no staked token passes every volume comparison (export_verifies_volumes, export_verifies_volumes_of_monitor, verified_volumes; reach_verifies_volumes, reach_export_inv: so does every state the transaction model reaches, using C01_deliver_conserves and C22_dense_preserved), and every other check follows from a named structural invariant, so an export with ExportInv, Conserved and amountsOk - or one that passes the decidable monitor wellFormed - is accepted (export_verifies, export_verifies_core, wellFormed_inv, wellFormed_verifies, wellFormed_importFixed); State.Import+InitChain as seen by the next export (importState: coin counter := number of coins, NextOrderID kept above 1, reward := reward of the price record, safe reward carried by the genesis since /repo 9bb5ac3, stakes/validators through an abstract recalculation) is the identity on every data component and on the whole canonical state when the recalculation has nothing to recompute (import_ncoins, import_nextOrder, import_id, import_export_id, exportState_idem), and cannot be when stake updates are pending (pending_updates_not_roundtrip = known finding F15); collected in C11_partial / C11_partial_monitor. Tie: mode export2 runs histories of seven profiles on the real node, exports twice per history and checks on each export: the real Verify() accepts and verifyState gives the same verdict (Q verify), the 33 invariants incl. all theorem hypotheses hold (Q wellformed), 54 kinds of single mutations get the same verdict and failing-check class from the real Verify() and from verifyState (Q verifyagree, about 10^4 per quick run), the export imports into a fresh node whose re-export equals it up to recomputed stake values (F15) and equals what importState predicts (Q importagrees), and both chains answer the same to the same following blocks up to the next payout; it counts that exports with pending updates, locked tokens, orders, unused multisig accounts, used checks, pending halt/commission/update votes and deleted candidates were all reached; a directed probe exports while the price record is 'off' (reward 0, safe reward > 0) and follows both chains over the next payout (safe-reward-lost-on-import: the defect this check found - the genesis carried one reward, so the imported chain minted and burned differently - repaired in /repo 9bb5ac3; the probe stays armed). Partial: behavioural equivalence of the new chain is bounded evidence, not a theorem; the stake recalculation is abstract (F15); structural invariants beyond C01/C22 are hypotheses checked on real exports.",
 }
 
 
